@@ -35,6 +35,8 @@ structure Frame where
   acc : List Int := []
   /-- the local `primary` (resize() only): the primary screen before the resize -/
   old : Grid := []
+  /-- the local `pen` (resize() only): the pen before the reflow -/
+  pen : EStyle := {}
 
 def Frame.get (s : Frame) : Loc → Int
   | .curRow => s.e.cur.row
@@ -244,6 +246,8 @@ def evalS (pm : List Param) : Stmt → Frame → M (Frame × Sig)
     -- `last` is local 2 of resize()
     let e' ← reflow Fixes.current (s.vars 2) s.old 0 s.e
     .ok ({ s with e := e' }, .norm)
+  | .prim .savePen, s => .ok ({ s with pen := s.e.cur.st }, .norm)
+  | .prim .restorePen, s => .ok ({ s with e := { s.e with cur := { s.e.cur with st := s.pen } } }, .norm)
   | .allocAlt h, s =>
     -- make([][]cell, h) panics on a negative length
     if evalEx pm s [] h < 0 then .error .oob
